@@ -182,6 +182,14 @@ def verus_unit(unit, tier):
     out['verus_json'] = vr
     out['times'] = js.get('times-ms', {})
     tool_errs = [d for d in res['diags'] if classify(d) == 'tool']
+    if tool_errs and all(re.search(r'Resource limit|rlimit', d.get('message', '')) for d in tool_errs):
+        # a solver resource wobble is not a verdict: retry once with a larger limit before giving up
+        res = run_verus(path, extra=('--rlimit', '100'))
+        js = res['json'] or js
+        vr = js.get('verification-results', {})
+        out['verus_json'] = vr
+        out['retried_rlimit'] = True
+        tool_errs = [d for d in res['diags'] if classify(d) == 'tool']
     if vr.get('encountered-vir-error') or tool_errs:
         msgs = '; '.join(sorted(set(d['message'] for d in tool_errs)))[:1500]
         first = tool_errs[0].get('rendered', '') if tool_errs else ''
